@@ -300,7 +300,11 @@ def check_property_contract():
             if isinstance(vs, Exc): yield p1, vs
             else:
                 yield p1.fork(), Exc('ValueError', site)
-                yield p1, Val('pyval', PARSED(vs[0].t))
+                if len(vs) > 1 or e.keywords:
+                    # PARSED is the callee with its default precision arguments (the full-precision instant); with explicit precision arguments the result is
+                    # another function of the text, about which this contract knows nothing: undecided, left to the bounded store comparison
+                    q = p1.inexact(); yield q, Val('pyval', z3.FreshConst(VALS, 'parsed_with_precision'))
+                else: yield p1, Val('pyval', PARSED(vs[0].t))
 
     def isinst(which):
         def h(x, v, p, site): yield p, Bool(which)
